@@ -43,6 +43,42 @@ def cases(tier, rng):
     maxn = 3 if tier == "quick" else 4
     pls = payloads(maxn)
     n = 0
+    # REQ with several servers, one of which is LOST (its connection ends while its reply is awaited, or a write to it
+    # fails): the socket forgets it, its identity is still in the rotation — every later request, also the one that
+    # skips the stale entry, goes out behind exactly ONE delimiter and its reply comes back unmodified
+    for how in ("eof", "rderr", "wrerr"):
+        for nsrv in (2, 3):
+            for p in ([b"x"], [b"a", b"", b"b"], [b"", b"q"], [b"k", b"y" * 300]):
+                sc = wg.Script()
+                sc.sock(1, "REQ")
+                for k in range(1, nsrv + 1):
+                    sc.attach(1, k, "REP", b"srv%d" % k)
+                    sc.add(f"wire {k}")
+                if how == "wrerr":
+                    sc.add("wrerr 1 BrokenPipe")
+                f = sc.fut()
+                sc.add(f"send {f} 1 {wg.mtok(p)}", f"poll {f}", f"drop {f}")
+                if how != "wrerr":
+                    sc.add("eof 1" if how == "eof" else "rderr 1 ConnectionReset")
+                    g = sc.fut()
+                    sc.add(f"recv {g} 1", f"poll {g}", f"drop {g}")
+                sc.add("wire 1")
+                # two full turns of the rotation over the surviving servers (the rotation is deterministic: the survivors
+                # in their order of attachment; the lost server's stale entry is skipped when it comes up)
+                surv = list(range(2, nsrv + 1))
+                for turn in range(2 * nsrv):
+                    tgt = surv[turn % len(surv)]
+                    f = sc.fut()
+                    sc.add(f"send {f} 1 {wg.mtok(p)}", f"poll {f}", f"drop {f}")
+                    for k in surv:
+                        sc.add(f"wire {k}")
+                    sc.reveal_msg(tgt, [b""] + [b"re"] + p)
+                    g = sc.fut()
+                    sc.add(f"recv {g} 1", f"poll {g}", f"drop {g}")
+                c = sc.case(f"req-after-peer-loss-{how}#{n}", ["req-after-peer-loss"])
+                c.expect = ("reqloss", p, nsrv)
+                out.append(c)
+                n += 1
     # REQ: wire of the request, then recv on scripted replies
     replies = [
         ("good", lambda r: [b""] + r),
@@ -161,6 +197,23 @@ def oracle(case, lines):
     out = dict()
     polls = [l for op, l in zip(case.ops, lines[1:]) if op.startswith("poll")]
     wires = [l for op, l in zip(case.ops, lines[1:]) if op.startswith("wire")]
+    if kind == "reqloss":
+        p, nsrv = a, b
+        want = wg.show_wire([[b""] + p])
+        seen = 0
+        for op, l in zip(case.ops, lines[1:]):
+            if op.startswith("wire ") and op != "wire 1" and l != "wire ." and not l.startswith("wire ff"):
+                seen += 1
+                if l != "wire " + want:
+                    return (f"after a server was lost, a request went out as {l[:90]} — not [ONE delimiter]+payload "
+                            f"(want wire {want[:70]})")
+        if seen < 2 * nsrv:
+            return f"after a server was lost only {seen} of {2 * nsrv} requests reached the surviving servers"
+        exp = f"ready ok M[{wg.show_frames([b're'] + p)}]"
+        got = [l for op, l in zip(case.ops, lines[1:]) if op.startswith("poll") and l.startswith("ready ok M[")]
+        if len(got) < 2 * nsrv or any(g != exp for g in got[-2 * nsrv:]):
+            return f"a reply did not come back as the frames after its delimiter: {[g[:60] for g in got[-2 * nsrv:]]} (want {exp[:60]})"
+        return None
     if kind == "rep2":
         req2, reply = a, b
         env, data = ref_rep_split(req2)
